@@ -141,7 +141,7 @@ CHECKS = {
                 text="all token sequences <=4 (thorough 5) over a 32-symbol structural alphabet into tokenize/parse/parse_with_warnings/"
                      "parse_meta_only; sequences <=2 (thorough 3) and a pool of rich documents through 35 tool configurations; unicode category "
                      "representatives x 19 contexts; every 1-line delete/dup/swap/truncate of every packaged .oct.md; deterministic executed-line "
-                     "growth on 29 size-scaled families; bracket nesting around the documented cap; every string of <=3 (thorough 4) over 40 single characters, every character-granular prefix and suffix of the pool documents, special-case words (harvested from the sources at run time) x 13 templates x 12 values through readers and tools; unclosed-quote + escape-pair families (regex backtracking is invisible to line counts: the 60 CPU-second watchdog decides), deep brackets inside META and nested META through all four readers; indentation nesting (blocks, sections, META blocks) to depth 5000; REGEX repetition counts and YAML frontmatter scalars of every resolvable kind (non-existent dates, tags, anchors) through every tool configuration",
+                     "growth on 29 size-scaled families; bracket nesting around the documented cap; every string of <=3 (thorough 4) over 40 single characters, every character-granular prefix and suffix of the pool documents, special-case words (harvested from the sources at run time) x 13 templates x 12 values through readers and tools; unclosed-quote + escape-pair families (regex backtracking is invisible to line counts: the 60 CPU-second watchdog decides), deep brackets inside META and nested META through all four readers; indentation nesting (blocks, sections, META blocks) to depth 5000; REGEX repetition counts and YAML frontmatter scalars of every resolvable kind (non-existent dates, tags, anchors) through every tool configuration; octave_write in 12 mode/flag combinations onto an EXISTING target holding 12 kinds of bytes (Latin-1, UTF-16, NUL, truncated / overlong / surrogate UTF-8, BOM, binary); multi-entry CONTRACT lists with boolean / null / version / variable tokens in META; growth families of many one-arrow / multi-word / wrong-case lines, with generator resumptions counted as steps",
                 note="growth is decided on executed-line counts (sys.monitoring), not wall time; finite alphabets",
                 tech="exhaustive enumeration of token sequences and single-edit mutations; outcome-class oracle (Document | LexerError | ParserError)"),
 }
